@@ -90,7 +90,7 @@ Lemma next_view : forall S i F lo0 lo1, nonul S -> BInv S i F lo0 lo1 ->
     exists i' lo0' lo1',
       next i = Ok (Some b, i') /\ BInv S i' (F + 1) lo0' lo1' /\ same_rest i i' /\
       t = view S (F + 1) /\ F < slen S /\
-      older i' lo0' lo1' <= Z.max (older i lo0 lo1) (F + 1 - hnZ i)
+      wstep (hnZ i) (older i lo0 lo1) lo0 lo1 (older i' lo0' lo1') lo0' lo1' (F + 1)
   end.
 Proof.
   intros S i F lo0 lo1 Hnn HI.
@@ -101,9 +101,7 @@ Proof.
     destruct (next_byte S i F lo0 lo1 Hnn HI ltac:(lia)) as (i' & a & b & Hn & HI' & Hsr & Hw).
     exists i', a, b. split; [exact Hn|]. split; [exact HI'|]. split; [exact Hsr|].
     split; [reflexivity|]. split; [lia|].
-    destruct Hw as [(-> & -> & Hsl)|(H1 & H2 & _)].
-    + unfold older. rewrite Hsl. lia.
-    + rewrite H2. lia.
+    eapply next_byte_wstep; try eassumption. apply Hsr.
 Qed.
 
 (* ------------------------------------------------------------------ one rune *)
@@ -168,7 +166,7 @@ Lemma Next_spec : forall S i F lo0 lo1, nonul S -> bytes S -> BInv S i F lo0 lo1
     exists i' lo0' lo1',
       Next i = Ok (NRune c, i') /\ BInv S i' (F + Z.of_N k) lo0' lo1' /\
       pushed i i' (Z.of_N k) (c =? 10)%N /\
-      older i' lo0' lo1' <= Z.max (older i lo0 lo1) (F + Z.of_N k - hnZ i)
+      wstep (hnZ i) (older i lo0 lo1) lo0 lo1 (older i' lo0' lo1') lo0' lo1' (F + Z.of_N k)
   | DInvalid => exists p i', Next i = Ok (NInvalid p, i')
   | DTrunc => exists i', Next i = Ok (NEOF, i')
   end.
@@ -203,11 +201,11 @@ Proof.
     + eexists _, a1, c1. split; [reflexivity|].
       split; [eapply BInv_ext; [..|exact HI1]; reflexivity|].
       split; [unfold pushed, push_size; prj; repeat split; congruence|].
-      rewrite older_ext with (i := i1) by reflexivity. exact Ho1.
+      rewrite (older_ext i1 _ a1 c1) by reflexivity. exact Ho1.
     + eexists _, a1, c1. split; [reflexivity|].
       split; [eapply BInv_ext; [..|exact HI1]; reflexivity|].
       split; [unfold pushed, push_size, bump_col; prj; repeat split; congruence|].
-      rewrite older_ext with (i := i1) by reflexivity. exact Ho1.
+      rewrite (older_ext i1 _ a1 c1) by reflexivity. exact Ho1.
   - (* multi-byte, a rune *)
     assert (Hnl : (c =? 10)%N = false) by (eapply multi_not_newline; eassumption).
     rewrite Hnl. clear Hd0.
@@ -226,7 +224,9 @@ Proof.
       split; [replace (F + Z.of_N 2) with (F + 1 + 1) by lia;
               eapply BInv_ext; [..|exact HI2]; reflexivity|].
       split; [unfold pushed, push_size, bump_col; prj; repeat split; congruence|].
-      rewrite older_ext with (i := i2) by reflexivity. lia. }
+      rewrite (older_ext i2 _ a2 c2) by reflexivity. rewrite Hh1 in Ho2.
+      replace (F + Z.of_N 2) with (F + 1 + 1) by lia.
+      eapply wstep_trans; [exact Ho1|exact Ho2|lia]. }
     pose proof (next_view S i2 (F + 1 + 1) a2 c2 Hnn HI2) as H2. rewrite <- Ht1 in H2.
     destruct t1 as [|b2 t2]; [discriminate Hd|].
     destruct H2 as (i3 & a3 & c3 & Hn3 & HI3 & Hs3 & Ht2 & HF3 & Ho3).
@@ -240,7 +240,9 @@ Proof.
       split; [replace (F + Z.of_N 3) with (F + 1 + 1 + 1) by lia;
               eapply BInv_ext; [..|exact HI3]; reflexivity|].
       split; [unfold pushed, push_size, bump_col; prj; repeat split; congruence|].
-      rewrite older_ext with (i := i3) by reflexivity. lia. }
+      rewrite (older_ext i3 _ a3 c3) by reflexivity. rewrite Hh1 in Ho2. rewrite Hh2 in Ho3.
+      replace (F + Z.of_N 3) with (F + 1 + 1 + 1) by lia.
+      eapply wstep_trans; [eapply wstep_trans; [exact Ho1|exact Ho2|lia]|exact Ho3|lia]. }
     pose proof (next_view S i3 (F + 1 + 1 + 1) a3 c3 Hnn HI3) as H3. rewrite <- Ht2 in H3.
     destruct t2 as [|b3 t3]; [discriminate Hd|].
     destruct H3 as (i4 & a4 & c4 & Hn4 & HI4 & Hs4 & Ht3 & HF4 & Ho4).
@@ -256,7 +258,9 @@ Proof.
     split; [replace (F + Z.of_N 4) with (F + 1 + 1 + 1 + 1) by lia;
             eapply BInv_ext; [..|exact HI4]; reflexivity|].
     split; [unfold pushed, push_size, bump_col; prj; repeat split; congruence|].
-    rewrite older_ext with (i := i4) by reflexivity. lia.
+    rewrite (older_ext i4 _ a4 c4) by reflexivity. rewrite Hh1 in Ho2. rewrite Hh2 in Ho3. rewrite Hh3 in Ho4.
+    replace (F + Z.of_N 4) with (F + 1 + 1 + 1 + 1) by lia.
+    eapply wstep_trans; [eapply wstep_trans; [eapply wstep_trans; [exact Ho1|exact Ho2|lia]|exact Ho3|lia]|exact Ho4|lia].
   - (* multi-byte, ill-formed *)
     clear Hd0.
     pose proof (next_view S i1 (F + 1) a1 c1 Hnn HI1) as H1. rewrite <- Ht0 in H1.
